@@ -123,7 +123,7 @@ func loopHeaderOf(b *ssa.BasicBlock) *ssa.BasicBlock {
 
 func init() {
 	register(&Rule{
-		ID: "C04.R1", Props: []string{"C04", "C05", "C06", "C17"}, Min: 3,
+		ID: "C04.R1", Props: []string{"C04", "C05", "C06", "C17", "C10"}, Min: 3,
 		Doc: "scope push/pop balance on every exit: in every function that calls Stack.Push, the number of pushed scopes is zero again at every return (error returns and returns out of the v-for callback included; `defer Pop` is applied at the returns it covers) — the necessary condition for 'bindings are visible inside the instance only' and 'nothing leaks to the includer'",
 		Run: func(p *Prog, c *Ctx) {
 			for _, fn := range p.Funcs {
